@@ -365,6 +365,10 @@ func (vfs *OrefaFS) Link(oldname, newname string) error {
 	nParent.mu.Lock()
 	defer nParent.mu.Unlock()
 
+	if !nParent.mode.IsDir() {
+		return &os.LinkError{Op: op, Old: oldname, New: newname, Err: vfs.err.NotADirectory}
+	}
+
 	if oChild.mode.IsDir() {
 		err := error(avfs.ErrOpNotPermitted)
 		if vfs.OSType() == avfs.OsWindows {
@@ -791,6 +795,14 @@ func (vfs *OrefaFS) Rename(oldname, newname string) error {
 
 	if !oChildOk || !oParentOk || !nParentOk {
 		return &os.LinkError{Op: op, Old: oldname, New: newname, Err: vfs.err.NoSuchFile}
+	}
+
+	nParent.mu.RLock()
+	nParentIsDir := nParent.mode.IsDir()
+	nParent.mu.RUnlock()
+
+	if !nParentIsDir {
+		return &os.LinkError{Op: op, Old: oldname, New: newname, Err: vfs.err.NotADirectory}
 	}
 
 	if (oChild.mode.IsDir() && nChildOk) || (!oChild.mode.IsDir() && nChildOk && nChild.mode.IsDir()) {
